@@ -5,6 +5,7 @@ import (
 	"encoding/binary"
 	"errors"
 	"fmt"
+	"math"
 	"math/bits"
 	"time"
 
@@ -264,6 +265,10 @@ func (db *RockDB) incr(ts int64, key []byte, delta int64) (int64, error) {
 		if err != nil {
 			return 0, err
 		}
+	}
+	if (delta > 0 && n > math.MaxInt64-delta) || (delta < 0 && n < math.MinInt64-delta) {
+		// int64 addition would wrap around silently
+		return 0, errIncrOverflow
 	}
 	n += delta
 	buf := FormatInt64ToSlice(n)
